@@ -275,6 +275,22 @@ def kekule_ok(a, b):
     for i, c in per_atom.items():
         if c > 1:
             return "atom %d has %d double bonds inside the aromatic system" % (i, c)
+    # "every aromatic atom that needs a pi bond has exactly one": decided here only where the answer does not depend
+    # on a valence model - an organic-subset aromatic carbon `c` (not bracketed, neutral) with at most three
+    # neighbours needs one unless it carries an exocyclic double bond
+    deg, exo = {}, {}
+    for (i, j), o in a.bonds.items():
+        for x in (i, j):
+            deg[x] = deg.get(x, 0) + 1
+            if o in (2, 3):       # an explicitly written multiple bond (exocyclic C=O, or c#c inside the ring)
+                exo[x] = exo.get(x, 0) + 1
+    in_system = set(x for k in arom_bonds for x in k)
+    for i in sorted(in_system):
+        x = a.atoms[i]
+        if x.element in ("c", "C") and x.aromatic and not x.bracket and x.charge == 0 and deg.get(i, 0) <= 3:
+            want = 0 if exo.get(i, 0) else 1
+            if per_atom.get(i, 0) != want:
+                return "aromatic carbon %d has %d double bonds inside the aromatic system, needs %d" % (i, per_atom.get(i, 0), want)
     return None
 
 
